@@ -398,6 +398,51 @@ fn unary_empty_selection(op: CmpOperator, variable_head: bool) {
     std::mem::forget(query);
 }
 
+/// for the harnesses of the result-set special case (`%v empty`): the per-value closure machinery is not on their path;
+/// it is replaced by a trivial recorder so that CBMC does not have to carry it (the closure path has its own harnesses)
+#[allow(clippy::type_complexity)]
+fn record_unary_stub<'eval, 'value, 'loc: 'value, O>(
+    _operation: O,
+    _cmp: (CmpOperator, bool),
+    _context: String,
+    _custom_message: Option<String>,
+    _eval_context: &'eval mut dyn EvalContext<'value, 'loc>,
+) -> Box<dyn FnMut(&QueryResult) -> Result<bool> + 'eval>
+where
+    O: Fn(&QueryResult) -> Result<bool> + 'eval,
+{
+    Box::new(move |_value: &QueryResult| Ok(true))
+}
+
+macro_rules! unary_special {
+    ($name:ident, $kind:expr) => {
+        #[cfg_attr(kani, kani::proof)]
+        #[cfg_attr(kani, kani::unwind(3))]
+        #[cfg_attr(kani, kani::stub(alloc::fmt::format, fmt_stub))]
+        #[cfg_attr(kani, kani::stub(fancy_regex::Regex::new, regex_new_stub))]
+        #[cfg_attr(kani, kani::stub(record_unary_clause, record_unary_stub))]
+        #[cfg_attr(verif_replay, test)]
+        fn $name() {
+            lib_only!();
+            unary_one(CmpOperator::Empty, $kind, true);
+        }
+    };
+}
+unary_special!(k_unsp_empty_int, 0u8);
+unary_special!(k_unsp_empty_null, 5u8);
+unary_special!(k_unsp_empty_unres, 8u8);
+
+#[cfg_attr(kani, kani::proof)]
+#[cfg_attr(kani, kani::unwind(3))]
+#[cfg_attr(kani, kani::stub(alloc::fmt::format, fmt_stub))]
+#[cfg_attr(kani, kani::stub(fancy_regex::Regex::new, regex_new_stub))]
+#[cfg_attr(kani, kani::stub(record_unary_clause, record_unary_stub))]
+#[cfg_attr(verif_replay, test)]
+fn k_unsp_empty_nosel() {
+    lib_only!();
+    unary_empty_selection(CmpOperator::Empty, true);
+}
+
 /// one harness = ONE call of unary_operation on a single selected value; operator-not and prefix-not are symbolic
 macro_rules! unary_single {
     ($name:ident, $op:expr, $kind:expr, $var:expr) => {
